@@ -1,8 +1,163 @@
 (* C02 property theorems only: each closed by `exact <lemma>` with Print Assumptions beneath. *)
-From Coq Require Import ZArith List Bool.
-Require Import MV.Lib.Base MV.C02.Defs MV.C02.Gen MV.C02.Model MV.C02.Proofs.
+From Coq Require Import ZArith List Bool Permutation.
+Import ListNotations.
+Require Import MV.C02.Proofs.
 Open Scope Z_scope.
 
+(* the generated validity predicate says what the property says *)
 Theorem C02_edge_valid_spec : forall a b N, edge_valid a b N = true <-> (a <> b /\ 0 <= a < N /\ 0 <= b < N).
 Proof. exact edge_valid_spec. Qed.
 Print Assumptions C02_edge_valid_spec.
+
+(* edge list = surviving declared edges (keyified, in order) ++ surviving new face sides (in face order);
+   the added sides are duplicate-free, disjoint from the declared ones, are sides of faces, cover every side;
+   every final edge is (a,b) with 0 <= a < b < n *)
+Theorem C02_edges : forall c r r', prepare c r = Ok r' ->
+  let N := zlen (vertices r) in
+  edges r' = filter (evalid N) (map kedge (edges r)) ++ filter (evalid N) (added_edges c r)
+  /\ NoDup (added_edges c r)
+  /\ (forall e, In e (added_edges c r) -> ~ In e (map kedge (edges r)))
+  /\ (forall e, In e (added_edges c r) -> exists f, In f (faces r') /\ In e (face_sides f))
+  /\ (snd c = true -> forall f s, In f (faces r') -> In s (face_sides f) ->
+        In s (map kedge (edges r) ++ added_edges c r))
+  /\ Forall (edge_ok N) (edges r').
+Proof. exact edges_thm. Qed.
+Print Assumptions C02_edges.
+
+(* a side of a face = two cyclically consecutive vertices, low index first (pins the generated index formula) *)
+Theorem C02_face_sides_spec : forall f, face_sides f = map (fun ab => kedge2 (fst ab) (snd ab)) (cyc_pairs f).
+Proof. exact face_sides_spec. Qed.
+Print Assumptions C02_face_sides_spec.
+
+Theorem C02_kedge_minmax : forall a b, kedge2 a b = (Z.min a b, Z.max a b).
+Proof. exact kedge2_minmax. Qed.
+Print Assumptions C02_kedge_minmax.
+
+Theorem C02_sides_present : forall c r r', prepare c r = Ok r' -> snd c = true ->
+  forall f s, In f (faces r') -> In s (face_sides f) -> evalid (zlen (vertices r)) s = true -> In s (edges r').
+Proof. exact sides_present. Qed.
+Print Assumptions C02_sides_present.
+
+Theorem C02_added_side_once : forall c r r', prepare c r = Ok r' ->
+  forall e, In e (added_edges c r) -> evalid (zlen (vertices r)) e = true -> count_occ edge_dec (edges r') e = 1%nat.
+Proof. exact added_side_once. Qed.
+Print Assumptions C02_added_side_once.
+
+(* the j-th surviving declared edge (old index i) is the j-th final edge and reads its old attribute value there *)
+Theorem C02_surviving_edges_order : forall N E,
+  map (fun i => kedge (znth E i (0, 0))) (kept_idx N E) = filter (evalid N) (map kedge E).
+Proof. exact kept_idx_survivors. Qed.
+Print Assumptions C02_surviving_edges_order.
+
+Theorem C02_edge_attributes : forall c r r', prepare c r = Ok r' ->
+  forall p name a, nth_error (eattrs r) p = Some (name, a) ->
+  exists a', nth_error (eattrs r') p = Some (name, a')
+    /\ attr_default a' = attr_default a
+    /\ forall j i, nth_error (kept_idx (zlen (vertices r)) (edges r)) j = Some i ->
+                   attr_get a' (Z.of_nat j) = attr_get a i.
+Proof. exact attrs_thm. Qed.
+Print Assumptions C02_edge_attributes.
+
+Theorem C02_hard_edges : forall c r r', prepare c r = Ok r' -> attr_lookup HARD (eattrs r) = None ->
+  let nd := zlen (filter (evalid (zlen (vertices r))) (map kedge (edges r))) in
+  (snd c = true -> faces r' <> [] ->
+     exists h, attr_lookup HARD (eattrs r') = Some h /\
+               forall j, 0 <= j < zlen (edges r') -> (attr_get h j = 1 <-> j < nd) /\ (attr_get h j = 0 <-> nd <= j))
+  /\ ((snd c = false \/ faces r' = []) -> attr_lookup HARD (eattrs r') = None).
+Proof. exact hard_edges_thm. Qed.
+Print Assumptions C02_hard_edges.
+
+(* faces completed from cells *)
+Theorem C02_faces_from_cells : forall c r r', prepare c r = Ok r' ->
+  faces r' = faces r ++ added_faces c r /\ cells r' = cells r
+  /\ NoDup (map keyify (added_faces c r))
+  /\ (forall f, In f (added_faces c r) ->
+        ~ In (keyify f) (map keyify (faces r)) /\ exists C, In C (cells r) /\ In f (cfc_cell_faces C))
+  /\ (fst c = true -> forall C f, In C (cells r) -> In f (cfc_cell_faces C) -> In (keyify f) (map keyify (faces r'))).
+Proof. exact faces_thm. Qed.
+Print Assumptions C02_faces_from_cells.
+
+Theorem C02_tet_faces_opposite : forall v0 v1 v2 v3,
+  let C := [v0; v1; v2; v3] in
+  length (cfc_cell_faces C) = 4%nat /\
+  forall i f v, nth_error (cfc_cell_faces C) i = Some f -> nth_error C i = Some v ->
+                length f = 3%nat /\ Permutation (v :: f) C.
+Proof. exact tet_faces_opposite. Qed.
+Print Assumptions C02_tet_faces_opposite.
+
+Theorem C02_hex_faces_shape : forall v0 v1 v2 v3 v4 v5 v6 v7,
+  let C := [v0; v1; v2; v3; v4; v5; v6; v7] in
+  length (cfc_cell_faces C) = 6%nat /\ Forall (fun f => length f = 4%nat /\ incl f C) (cfc_cell_faces C).
+Proof. exact hex_faces_shape. Qed.
+Print Assumptions C02_hex_faces_shape.
+
+(* the two index tables (finite constants): natural in the cell, closed surfaces, 3 faces per vertex *)
+Theorem C02_tables : (forall v0 v1 v2 v3,
+     cfc_cell_faces [v0; v1; v2; v3] = map (map (fun i => znth [v0; v1; v2; v3] i 0)) tet_index_table)
+  /\ (forall v0 v1 v2 v3 v4 v5 v6 v7, cfc_cell_faces [v0; v1; v2; v3; v4; v5; v6; v7] =
+        map (map (fun i => znth [v0; v1; v2; v3; v4; v5; v6; v7] i 0)) hex_index_table)
+  /\ closed_table tet_index_table = true /\ closed_table hex_index_table = true
+  /\ forallb (fun v => Nat.eqb (vertex_degree hex_index_table v) 3) [0; 1; 2; 3; 4; 5; 6; 7] = true
+  /\ (forall C, (length C = 4%nat \/ length C = 8%nat) -> gcf_cell_faces C = Some (cfc_cell_faces C)).
+Proof.
+  exact (conj tet_table_natural (conj hex_table_natural (conj (proj1 tet_table_closed)
+          (conj (proj1 hex_table_closed) (conj (proj1 (proj2 hex_table_closed)) tables_agree))))).
+Qed.
+Print Assumptions C02_tables.
+
+Theorem C02_cell_faces : forall c r r', cf_elem r = [] -> cf_adj r = [] -> Forall cell_ok (cells r) -> prepare c r = Ok r' ->
+  cf_adj r' = cf_owners (enumerate (cells r)) /\
+  Forall2 (face_ref (faces r')) (cf_elem r') (flat_map cfc_cell_faces (cells r)).
+Proof. exact cell_faces_thm. Qed.
+Print Assumptions C02_cell_faces.
+
+Theorem C02_prepare_total : forall c r, fst c = true -> cf_elem r = [] -> cf_adj r = [] -> Forall cell_ok (cells r) ->
+  exists r', prepare c r = Ok r'.
+Proof. exact prepare_total. Qed.
+Print Assumptions C02_prepare_total.
+
+(* corner records *)
+Theorem C02_corners : forall c r r', fc_elem r = [] -> cc_elem r = [] -> cc_adj r = [] -> prepare c r = Ok r' ->
+  combine (fc_elem r') (fc_adj r') = incidences (faces r')
+  /\ fc_elem r' = concat (faces r') /\ fc_adj r' = owners (faces r') /\ zlen (fc_elem r') = sum_len (faces r')
+  /\ combine (cc_elem r') (cc_adj r') = incidences (cells r')
+  /\ cc_elem r' = concat (cells r') /\ cc_adj r' = owners (cells r') /\ zlen (cc_elem r') = sum_len (cells r').
+Proof. exact corners_thm. Qed.
+Print Assumptions C02_corners.
+
+(* class selection *)
+Theorem C02_class : forall c dim r k r', instanciate c dim r = Ok (k, r') ->
+  prepare c r = Ok r'
+  /\ k = Z.max (match dim with Some x => x | None => -1 end) (top_dim r')
+  /\ 0 <= k <= 3
+  /\ mesh_has_edges k = (1 <=? k) /\ mesh_has_faces k = (2 <=? k) /\ mesh_has_cells k = (3 <=? k).
+Proof. exact class_thm. Qed.
+Print Assumptions C02_class.
+
+(* from_arrays: 3-D vertices (zero padding), rejected indices *)
+Theorem C02_from_arrays_3d : forall c w V E F C k r', (forall v, In v V -> zlen v = w) ->
+  from_arrays c w V E F C = Ok (k, r') ->
+  w <= 3 /\ vertices r' = map (fun v => v ++ repeat 0 (Z.to_nat (3 - w))) V
+  /\ Forall (fun v => length v = 3%nat) (vertices r')
+  /\ (forall e, In e E -> fst e < zlen V /\ snd e < zlen V)
+  /\ (forall f x, In f (F ++ C) -> In x f -> x < zlen V)
+  /\ k = top_dim r'.
+Proof. exact from_arrays_thm. Qed.
+Print Assumptions C02_from_arrays_3d.
+
+(* building again from the built mesh: same class, same containers, attributes equal as total maps over the edges;
+   and the re-wrapped data satisfies the hypothesis again (so: any number of rebuilds) *)
+Theorem C02_rebuild_changes_nothing : forall c dim r k r1, wf_corners r -> instanciate c dim r = Ok (k, r1) ->
+  wf_corners (rewrap k r1) /\
+  exists r2, instanciate c dim (rewrap k r1) = Ok (k, r2) /\ raw_equiv r2 (rewrap k r1).
+Proof. exact rebuild_thm. Qed.
+Print Assumptions C02_rebuild_changes_nothing.
+
+(* what `prepared` means, and that prepare() is a no-op (up to attribute representation) on any such object *)
+Theorem C02_prepared_stable : forall c p, prepared c p -> exists p2, prepare c p = Ok p2 /\ raw_equiv p2 p.
+Proof. exact prepared_stable. Qed.
+Print Assumptions C02_prepared_stable.
+
+Theorem C02_prepare_gives_prepared : forall c r r1, wf_corners r -> prepare c r = Ok r1 -> prepared c r1 /\ wf_corners r1.
+Proof. exact prepare_gives_prepared. Qed.
+Print Assumptions C02_prepare_gives_prepared.
